@@ -279,6 +279,30 @@ def nbackDoInit (I : FunI F α) (s : St F (NBack α) α) (params : PList α) : E
     .ok { s with fn := fn, core := { s.core with tolerance := t },
                  ext := { s.ext with fold := v, alamin := t, alam := one } }
 
+/-- the step length after the first rejected one (lines 58-63):
+`tmplam_ = -slope_ / (2.0 * (f_ - fold_ - slope_)); alam_ = tmplam_ > 0.1 ? tmplam_ : 0.1` -/
+def nbackFirst (g : NBack α) (f : α) : α :=
+  let tmplam := -g.slope / (ofInt 2 * (f - g.fold - g.slope))
+  if gtb tmplam (ofRat 1 10) then tmplam else ofRat 1 10
+
+/-- the step length after a later rejected one (lines 66-89): cubic model through the last two
+trials, capped at `0.5 * alam_`, floored at `0.1 * alam_` -/
+def nbackNext (g : NBack α) (f : α) : α :=
+  let half : α := ofRat 1 2
+  let rhs1 := f - g.fold - g.alam * g.slope
+  let rhs2 := g.f2 - g.fold - g.alam2 * g.slope
+  let a := (rhs1 / (g.alam * g.alam) - rhs2 / (g.alam2 * g.alam2)) / (g.alam - g.alam2)
+  let b := (-g.alam2 * rhs1 / (g.alam * g.alam) + g.alam * rhs2 / (g.alam2 * g.alam2)) / (g.alam - g.alam2)
+  let tmplam :=
+    if eqb a zero then -g.slope / (ofInt 2 * b)
+    else
+      let disc := b * b - ofInt 3 * a * g.slope
+      if ltb disc zero then half * g.alam
+      else if leb b zero then (-b + sqrt disc) / (ofInt 3 * a)
+      else -g.slope / (b + sqrt disc)
+  let tmplam := if gtb tmplam (half * g.alam) then half * g.alam else tmplam
+  if gtb tmplam (ofRat 1 10 * g.alam) then tmplam else ofRat 1 10 * g.alam
+
 /-- `NewtonBacktrackOneDimension::doStep` (NewtonBacktrackOneDimension.cpp:38-92), repaired: when
 no step is acceptable the function is evaluated at the point the optimiser goes back to -/
 def nbackDoStep (I : FunI F α) (s : St F (NBack α) α) : Except (Exc × F) (St F (NBack α) α × α) :=
@@ -292,28 +316,12 @@ def nbackDoStep (I : FunI F α) (s : St F (NBack α) α) : Except (Exc × F) (St
     | .error e => .error e
     | .ok (s, f) =>
       let g := { g with f := f }
-      let tenth : α := ofRat 1 10
-      let half : α := ofRat 1 2
       if leb f (g.fold + g.alam * ofRat 1 10000 * g.slope) then
         .ok ({ s with ext := g, core := { s.core with tol := true } }, f)
       else if eqb g.alam one then
-        let tmplam := -g.slope / (ofInt 2 * (f - g.fold - g.slope))
-        .ok ({ s with ext := { g with f2 := f, alam := if gtb tmplam tenth then tmplam else tenth } }, f)
+        .ok ({ s with ext := { g with f2 := f, alam := nbackFirst g f } }, f)
       else
-        let rhs1 := f - g.fold - g.alam * g.slope
-        let rhs2 := g.f2 - g.fold - g.alam2 * g.slope
-        let a := (rhs1 / (g.alam * g.alam) - rhs2 / (g.alam2 * g.alam2)) / (g.alam - g.alam2)
-        let b := (-g.alam2 * rhs1 / (g.alam * g.alam) + g.alam * rhs2 / (g.alam2 * g.alam2)) / (g.alam - g.alam2)
-        let tmplam :=
-          if eqb a zero then -g.slope / (ofInt 2 * b)
-          else
-            let disc := b * b - ofInt 3 * a * g.slope
-            if ltb disc zero then half * g.alam
-            else if leb b zero then (-b + sqrt disc) / (ofInt 3 * a)
-            else -g.slope / (b + sqrt disc)
-        let tmplam := if gtb tmplam (half * g.alam) then half * g.alam else tmplam
-        .ok ({ s with ext := { g with alam2 := g.alam, f2 := f,
-                                      alam := if gtb tmplam (tenth * g.alam) then tmplam else tenth * g.alam } }, f)
+        .ok ({ s with ext := { g with alam2 := g.alam, f2 := f, alam := nbackNext g f } }, f)
 
 /-- `NBODStopCondition`: `init()` does nothing, `isToleranceReached()` is `false` -/
 def nbackAlgo (I : FunI F α) : Algo F (NBack α) α :=
